@@ -11,7 +11,7 @@ diff = f"{out}/{name}.diff"
 num = re.sub(r"\D", "", name)
 demo = sys.argv[3] if len(sys.argv) > 3 and not sys.argv[3].startswith("--") else (f"{out}/demo_{num}.rs" if not name.startswith("extra") else f"{out}/extra_demo_{num}.rs")
 feat = next((a.split("=",1)[1] for a in sys.argv if a.startswith("--features=")), "")
-featflag = (f"--features {feat} " if feat else "") + ("--no-default-features " if "--nodefault" in sys.argv else "")
+featflag = (f"--features {feat} " if feat else "") + ("--no-default-features " if "--nodefault" in sys.argv else "") + ("--release " if "--release" in sys.argv else "")
 env = dict(os.environ, CARGO_NET_OFFLINE="true", RUST_BACKTRACE="0")
 def sh(cmd, **kw): return subprocess.run(cmd, shell=True, cwd=wt, env=env, capture_output=True, text=True, **kw)
 sh("git checkout -q -- . && rm -f tests/demo_*.rs tests/extra_demo_*.rs")
@@ -49,6 +49,8 @@ if feat:
     meta["demo_features"] = feat
 if "--nodefault" in sys.argv:
     meta["demo_no_default_features"] = True
+if "--release" in sys.argv:
+    meta["demo_release_profile"] = True
 if os.path.exists(f"{d}/meta.json"):
     old = json.load(open(f"{d}/meta.json")); meta["needs_to_manifest"] = old.get("needs_to_manifest", ""); meta["detected_by"] = old.get("detected_by", {})
 json.dump(meta, open(f"{d}/meta.json", "w"), indent=1)
